@@ -5,6 +5,8 @@ import Lean.Data.Json
 import Prov.Eq
 import Prov.Json
 import Prov.JsonSpec
+import Prov.Xml
+import Prov.XmlSpec
 
 open Lean
 namespace Driver
@@ -174,5 +176,32 @@ open Prov.JsonSpec in
 def encARec (r : ARec) : Json :=
   Json.mkObj [("kind", Json.str r.kind), ("id", match r.id with | some u => Json.str u | none => Json.null),
               ("attrs", Json.arr (r.attrs.map (fun a => Json.arr #[Json.str a.1, encAVal a.2])).toArray)]
+
+partial def decXNode (j : Json) : R XNode := do
+  let u ← (← j.getObjVal? "u").getStr?
+  let l ← (← j.getObjVal? "l").getStr?
+  let p : Option String ← match field? j "p" with
+    | some x => do pure (some (← x.getStr?))
+    | none => pure none
+  let ns ← (← (← j.getObjVal? "ns").getArr?).toList.mapM (fun e => do
+    let pr ← e.getArr?
+    let k : Option String ← if pr[0]!.isNull then pure none else do pure (some (← pr[0]!.getStr?))
+    pure (k, ← pr[1]!.getStr?))
+  let attrs ← (← (← j.getObjVal? "a").getArr?).toList.mapM (fun e => do
+    let pr ← e.getArr?
+    pure ((← pr[0]!.getStr?, ← pr[1]!.getStr?), ← pr[2]!.getStr?))
+  let t : Option String ← match field? j "t" with
+    | some x => do pure (some (← x.getStr?))
+    | none => pure none
+  let cs ← (← (← j.getObjVal? "c").getArr?).toList.mapM decXNode
+  return { uri := u, loc := l, pfx := p, nsmap := ns, attrs := attrs, text := t, children := cs }
+
+partial def encXNode (n : XNode) : Json :=
+  Json.mkObj [
+    ("u", Json.str n.uri), ("l", Json.str n.loc),
+    ("ns", Json.arr (n.nsmap.map (fun p => Json.arr #[(match p.1 with | some k => Json.str k | none => Json.null), Json.str p.2])).toArray),
+    ("a", Json.arr (n.attrs.map (fun a => Json.arr #[Json.str a.1.1, Json.str a.1.2, Json.str a.2])).toArray),
+    ("t", match n.text with | some t => Json.str t | none => Json.null),
+    ("c", Json.arr (n.children.map encXNode).toArray)]
 
 end Driver
